@@ -45,6 +45,11 @@ def main():
             continue
         entry = dict(property=meta["property"], summary=meta.get("summary", ""))
         try:
+            if "--demo" in flags and os.path.exists(os.path.join(d, "demo.py")):
+                os.makedirs(os.path.join(wt, "MUTATION"), exist_ok=True)
+                shutil.copy(os.path.join(d, "demo.py"), os.path.join(wt, "MUTATION", "demo.py"))
+                rc, out = sh("/venv/bin/python MUTATION/demo.py", cwd=wt)
+                entry["demo_without_change"] = "exit %d" % rc
             rc, out = sh("git apply %s" % os.path.join(d, "patch.diff"), cwd=wt)
             if rc:
                 entry["apply"] = "FAILED: " + out[-300:]
@@ -78,6 +83,13 @@ def main():
             shutil.rmtree(wt, ignore_errors=True)
         results[sid] = entry
         json.dump(results, open(rpath, "w"), indent=1, sort_keys=True)
+        if "--baseline" in flags or "--demo" in flags:
+            prev = meta.get("verified", {})
+            prev.update({k: v for k, v in entry.items() if k not in ("property", "summary")})
+            prev["how"] = ("scratch worktree of /repo HEAD under /var/tmp, git apply patch.diff; baseline suite compared with BASELINE.json "
+                           "stable_pass; demo.py run without and with the change; ./check <property> --tier quick with VERIF_REPO=<worktree>")
+            meta["verified"] = prev
+            json.dump(meta, open(os.path.join(d, "meta.json"), "w"), indent=1)
     print()
     for sid in sorted(results):
         e = results[sid]
